@@ -15,6 +15,30 @@ func init() {
 	register(&Check{ID: "C36", Level: "other", Pkgs: []string{"./pkg/innerring/processors/governance"}, Run: runC36})
 }
 
+// stripCopy sees through a copy of a slice (slices.Clone(x), append([]T(nil), x...)): the copy has the same
+// length and the same elements as x.
+func stripCopy(v ssa.Value) ssa.Value {
+	for i := 0; i < 3; i++ {
+		c, ok := v.(*ssa.Call)
+		if !ok {
+			return v
+		}
+		switch n := core.CalleeName(c); {
+		case strings.HasPrefix(n, "slices.Clone") && len(c.Call.Args) == 1:
+			v = c.Call.Args[0]
+		case n == "builtin.append" && len(c.Call.Args) == 2:
+			if k, isK := c.Call.Args[0].(*ssa.Const); isK && k.IsNil() {
+				v = c.Call.Args[1]
+			} else {
+				return v
+			}
+		default:
+			return v
+		}
+	}
+	return v
+}
+
 // evalIntExpr evaluates a pure integer SSA expression over len(param0)=n; ok=false if it is not one.
 func evalIntExpr(fn *ssa.Function, v ssa.Value, n int64, depth int) (int64, bool) {
 	if depth == 0 {
@@ -25,7 +49,7 @@ func evalIntExpr(fn *ssa.Function, v ssa.Value, n int64, depth int) (int64, bool
 	}
 	switch x := v.(type) {
 	case *ssa.Call:
-		if core.CalleeName(x) == "builtin.len" && len(fn.Params) > 0 && x.Call.Args[0] == fn.Params[0] {
+		if core.CalleeName(x) == "builtin.len" && len(fn.Params) > 0 && stripCopy(x.Call.Args[0]) == fn.Params[0] {
 			return n, true
 		}
 	case *ssa.Convert:
@@ -140,7 +164,7 @@ func elemOfParam(fn *ssa.Function, v ssa.Value) (int, ssa.Value) {
 	if !ok {
 		return -1, nil
 	}
-	return core.ParamIndex(fn, ia.X), ia.Index
+	return core.ParamIndex(fn, stripCopy(ia.X)), ia.Index
 }
 
 func runC36(p *core.Prog, r *core.Report) {
